@@ -197,6 +197,13 @@ def run_conn(exe, seed, drv_model=None):
                                   "calls, %s" % (plan, line, want_calls, "the stream, nothing closed" if last == 0 else
                                                  "`could not connect socket: %s` and the descriptor closed exactly once" % os.strerror(last))))
                 plans.append((plan, kv))
+            elif line.startswith("pipeline "):
+                n += 1
+                stats["subprocess_pipelines"] = stats.get("subprocess_pipelines", 0) + 1
+                if kv.get("ended") != "true" or kv.get("count") != kv.get("n") or kv.get("status") != "0,0":
+                    fails.append(("subprocess-pipeline", "producer | consumer through (os/pipe :RW), parent's ends closed: %s -- expected the consumer to "
+                                  "read %s bytes, see end of stream when the producer exits, and both to exit 0 (a stray copy of the write end keeps "
+                                  "the consumer waiting forever)" % (line, kv.get("n"))))
             elif line.startswith("inetd "):
                 n += 1
                 stats["duplex_redirections"] = stats.get("duplex_redirections", 0) + 1
